@@ -143,6 +143,9 @@ func callsOpFuncs(w *World, fn *ssa.Function) bool {
 // inlineHelpers: walk into compiler methods that are neither node evaluators
 // (other than operand wrappers), nor operator functions, nor the predicate.
 func (m *infixModel) inlineHelpers(caller, callee *ssa.Function) bool {
+	if callee.Signature.Recv() == nil && callee.Pkg != nil && callee.Pkg == m.fn.Pkg && callee.Object() != nil && !callee.Object().Exported() && len(callee.Blocks) > 0 {
+		return true // plain unexported helper of the evaluator's package (a predicate over the operator, ...)
+	}
 	if !m.w.isCompilerMethod(callee) || m.tables[callee] != nil || callee == m.truthy {
 		return false
 	}
@@ -645,10 +648,10 @@ func c06DispatchSSA(r *Run, m *infixModel) {
 				if !ok || m.tables[call.Call.StaticCallee()] == nil || len(call.Call.Args) != 4 {
 					continue
 				}
-				v := sites[call]
+				v := sites[origCall(call)]
 				if v == nil {
 					v = &verdict{pos: call.Pos()}
-					sites[call] = v
+					sites[origCall(call)] = v
 				}
 				v.n++
 				okL := m.isOperandValue(p, call.Call.Args[1], "Left", 0)
